@@ -1102,6 +1102,12 @@ ares_status_t ares_dns_write_buf(const ares_dns_record_t *dnsrec,
 
   orig_len = ares_buf_len(buf);
 
+  /* Exactly one question is supported, ares_dns_parse() would reject anything
+   * else we produce */
+  if (ares_dns_record_query_cnt(dnsrec) != 1) {
+    return ARES_EFORMERR;
+  }
+
   /* Compression offsets count from the start of the message, not from the
    * start of the buffer which may already hold other data */
   namelist.names     = NULL;
